@@ -335,14 +335,19 @@ def runAction (w : World) (a : Action) : World × Segment :=
   let seg := { w.seg with closedFlag := closedNow, results := w.seg.results.mergeSort (fun a b => a.1 ≤ b.1) }
   ({ w with closedSeen := w.closedSeen || closedNow, seg := {} }, seg)
 
-/-- a whole schedule -/
-def run (password : Option Bytes) (choices : List Bool) (actions : List Action) : List Segment × Nat :=
+/-- a whole schedule; also reports, per segment, how many scheduler choices had been consulted by
+the end of that segment -/
+def runTrace (password : Option Bytes) (choices : List Bool) (actions : List Action) : List (Segment × Nat) :=
   let w0 : World := { st := { password := password }, sched := { choices := choices } }
-  let rec go (w : World) (acc : List Segment) : List Action → List Segment × Nat
-    | [] => (acc, w.sched.used)
+  let rec go (w : World) (acc : List (Segment × Nat)) : List Action → List (Segment × Nat)
+    | [] => acc
     | a :: as =>
       let (w, seg) := runAction w a
-      go w (acc ++ [seg]) as
+      go w (acc ++ [(seg, w.sched.used)]) as
   go w0 [] actions
+
+def run (password : Option Bytes) (choices : List Bool) (actions : List Action) : List Segment × Nat :=
+  let t := runTrace password choices actions
+  (t.map (·.1), (t.getLast?.map (·.2)).getD 0)
 
 end Mpd.Client
